@@ -63,7 +63,7 @@ Proof.
   intros O pa pb a e H. destruct a as [x|p q cs|p k v|p cs|cs].
   - cbn in H. unfold leaf_script in H.
     assert (Hm : leaf_match_cost x x = 0).
-    { unfold leaf_match_cost. rewrite lev_refl', py_eqb_refl, andb_false_r. reflexivity. }
+    { unfold leaf_match_cost, leaf_match_cost_raw. rewrite lev_refl', py_eqb_refl, andb_false_r. apply leaf_cap_zero. }
     destruct (lk x) eqn:Ek; rewrite ?Ek in H; try (inversion H; subst e; cbn; exact Hm).
     + rewrite str_eqb_refl' in H. inversion H; reflexivity.
     + inversion H; reflexivity.
